@@ -612,6 +612,27 @@ func propC09(o *out, r *rng, thorough bool) {
 			}
 		}
 	}
+	// one unknown operand and one constant, every operator and kind (a constant that is neutral for one kind of value is
+	// not neutral for another: x / 1 is a float); literals in parentheses on either side
+	for _, op := range c09Ops {
+		for _, c := range consts {
+			for _, h := range heads {
+				if !wellTypedCell(op, h, c) {
+					continue
+				}
+				x := &influxql.VarRef{Val: "x"}
+				for _, e := range []influxql.Expr{&influxql.BinaryExpr{Op: op, LHS: x, RHS: litOf(c)}, &influxql.BinaryExpr{Op: op, LHS: litOf(c), RHS: x},
+					&influxql.BinaryExpr{Op: op, LHS: &influxql.ParenExpr{Expr: litOf(h)}, RHS: litOf(c)}, &influxql.BinaryExpr{Op: op, LHS: litOf(h), RHS: &influxql.ParenExpr{Expr: &influxql.ParenExpr{Expr: litOf(c)}}},
+					&influxql.BinaryExpr{Op: influxql.SUB, LHS: &influxql.BinaryExpr{Op: op, LHS: x, RHS: litOf(c)}, RHS: litOf(c)}} {
+					if _, isBin := e.(*influxql.BinaryExpr).LHS.(*influxql.BinaryExpr); isBin && (!wellTypedCell(influxql.SUB, h, c) || op >= influxql.AND) {
+						continue
+					}
+					c09One(o, e, nil, map[string]interface{}{"x": h}, "cell-unknown")
+					c09One(o, e, map[string]interface{}{"x": h}, nil, "cell-unknown")
+				}
+			}
+		}
+	}
 	n := 5000
 	if thorough {
 		n = 400000
